@@ -1,6 +1,7 @@
 import Autog.Json
 import Autog.Lemmas.MonitorMachine
 import Autog.Spec.Layering
+import Autog.Tfun
 /-! The line-protocol driver: one case line in, one verdict line out. -/
 
 namespace Autog
@@ -116,6 +117,11 @@ def evalLayout (cfg : Cfg) (es : InEdges) (obs : Json) : E Verdict := do
                   v := v.addAll "C10" [("optimality-certificate", certOK es (fun i => (g.node i).layer) g.nodes.size),
                                        ("contiguous-bands", contiguous)]
           | _ => throw "bad stage"
+  -- correspondence of the models with the traced run
+  if let some cs := fieldOpt obs "comps" then
+    let comps ← (← jArr cs).mapM parseComp
+    for (k, ok, why) in tfunLayout cfg es comps do
+      v := v.add k ok why
   -- C16
   if (cfg.p4 == 1 || cfg.p4 == 2) && cfg.virt && (comps o).length == 1 then
     v := v.addAll "C16" [("extent", c16_extent cfg o), ("left-zero", c16_leftZero o),
